@@ -1,5 +1,5 @@
 (* C10 — Time lookups return the first live message at or after the given time. *)
-From KV Require Import Base Model Spec SearchProofs LogInv GetProofs History KeyProofs KeyInv TimeProofs ReadsPreserve.
+From KV Require Import Base Model Spec SearchProofs LogInv GetProofs History KeyProofs KeyInv TimeProofs TimeInv ReadsPreserve.
 
 (* For every state of a session whose index files are the derived ones (KInv, proved for every reachable
    state of a session that keeps its options), whose index timestamps equal the message times (TS) and whose
@@ -14,6 +14,25 @@ Theorem C10_get_by_time :
   check_get_by_time (abs st) (ctimes c) ts (obs_get (log_get_by_time H st ts)) = true.
 Proof. exact log_get_by_time_correct. Qed.
 Print Assumptions C10_get_by_time.
+
+(* the hypotheses are met on every state reached by ANY history - publishes with rollover, deletes, reads with lazy
+   index rebuilds, close/reopen in any mode, index removal, Migrate, Recover - that keeps its index options and whose
+   publish times never decrease and are not negative (thist_ok 0: every batch is non-decreasing and starts at or
+   after the largest time published before): GetByTime answers as specified, whatever happened before *)
+Theorem C10_on_monotone_histories :
+  forall (H : bytes -> Z) p ops c ts,
+  Forall (uses p) ops -> thist_ok 0 ops ->
+  let st := fst (hrun H init_state ops) in
+  opened st = Some c -> lvirt st = false ->
+  check_get_by_time (abs st) (ctimes c) ts (obs_get (log_get_by_time H st ts)) = true.
+Proof. exact get_by_time_on_monotone_histories. Qed.
+Print Assumptions C10_on_monotone_histories.
+
+Theorem C10_invariant_over_histories :
+  forall (H : bytes -> Z) p ops T st,
+  TGood H p T st -> Forall (uses p) ops -> thist_ok T ops -> TGood H p (T_final T ops) (fst (hrun H st ops)).
+Proof. exact thistory. Qed.
+Print Assumptions C10_invariant_over_histories.
 
 (* the in-segment lower bound on timestamps (index.Time), for index arrays of any length *)
 Theorem C10_index_time :
